@@ -29,7 +29,8 @@ PROVED HERE
   machine consults the payload encoder only through `Req` = (call site, `last_processed_pos_`,
   `input_pos_`, `last_flush_pos_`, `is_last`, `force_flush`) and the invocation count — positions and
   flags, no allocator identity, no thread id, no address (`req_is_positions_and_flags`); and by
-  C02Part its value is decided by ONE call (`stream_job_value`).  So two runs of a job differ only
+  C02Part its value is decided by ONE call (`stream_job_value`) (C20 `call_terminates`: the call itself
+  never runs out of fuel).  So two runs of a job differ only
   if their payload encoders answer the same request differently (`stream_job_congr`).
 
 LEFT TO THE REAL CODE (exercised by the 3-spawner x fresh/reused pool x repeat x favor on/off byte
@@ -193,5 +194,8 @@ theorem stream_job_value (o : Oracle) (fuel : Nat) (p : Params) (i t n : Nat) (p
   unfold streamJob
   rw [h]
   exact BV.Props.C02Part.part_of_stream_model i t n hi ht64 hnt hlen (Or.inl ⟨⟨_, rfl⟩, hw⟩) h []
+
+/-- non-vacuity: the toy payload encoder of C02Part, job 0 of 1 over 3 bytes -/
+example : streamJob BV.Props.C02Part.toyOracle 5000 {} 0 1 3 [1, 2, 3] = .ok [251, 255, 255, 255, 255, 255] := by decide +kernel
 
 end BV.Props.C06Pure
